@@ -69,6 +69,9 @@ fn gen_corpus(rng: &mut Rng) -> String {
         6 => s.push_str("\tBOS/EOS,*\n\tf\nEOS\na\tf\nEOS\n"), // only empty surfaces, then a sentence
         7 => s.push_str(" EOS\n"),
         8 => s.push_str("eos\n"),
+        // long malformed lines of multi-byte characters (no TAB; three fields; astral characters)
+        9 => s.push_str("これはタブのかわりに空白をつかったとてもながい行です 名詞,一般\nEOS\n"),
+        10 => { if rng.chance(1, 2) { s.push_str("東京都千代田区永田町一丁目七番一号\t名詞,固有名詞,地名\t余分な三つ目の欄がある\nEOS\n"); } else { s.push_str("😀😀😀😀😀😀😀😀😀😀😀😀😀😀😀😀😀😀😀😀\nEOS\n"); } }
         _ => {}
     }
     s
@@ -128,8 +131,17 @@ pub fn run(seed: u64, n: usize, outdir: &str, _corpus: Option<&str>) -> std::io:
                 None => (0, gen_corpus(&mut rng)),
             }
         };
-        let p = parse(text.as_bytes());
-        let w = write_all(text.as_bytes());
+        // kind 2 (1 corpus in 30): the same text with a byte that is not UTF-8 inserted into one of its lines -- reading
+        // must fail, whatever precedes or follows
+        let (kind, raw): (u8, Vec<u8>) = if kind == 0 && !text.is_empty() && rng.chance(1, 30) {
+            let mut b = text.clone().into_bytes();
+            let mut k = rng.below(b.len() as u64) as usize;
+            while k < b.len() && (b[k] & 0xC0) == 0x80 { k += 1; }   // not inside a character: the byte itself is the offence
+            b.insert(k.min(b.len()), 0xFF);
+            (2, b)
+        } else { (kind, text.clone().into_bytes()) };
+        let p = parse(&raw);
+        let w = write_all(&raw);
         let rp = match &w {
             Outcome::Ok(b) => parse(b),
             Outcome::Err => Outcome::Err,
